@@ -71,7 +71,7 @@ impl Drop for Scratch {
 }
 
 /// normalised end of an execution, comparable between the Go model and the reference semantics
-#[derive(Debug, Clone, PartialEq, Eq, Hash)]
+#[derive(Debug, Clone, PartialEq, Eq, Hash, PartialOrd, Ord)]
 pub enum NEnd {
     Ok,
     TrapDivZero,
@@ -83,7 +83,7 @@ pub enum NEnd {
     Unsupported(String),
 }
 
-#[derive(Debug, Clone, PartialEq, Eq, Hash)]
+#[derive(Debug, Clone, PartialEq, Eq, Hash, PartialOrd, Ord)]
 pub struct Obs {
     pub stdout: Vec<u8>,
     pub end: NEnd,
